@@ -297,9 +297,6 @@ static std::vector<Violation> case_c09(const Plan& p, CaseCtx& cx)
             cx.st->add("probe.error_at_end_of_input");
         if (!r.accepted && r.tokens.size() <= 1) cx.st->add("probe.error_on_first_term");
         if (o.op.stream == STR_SIM && o.rend.effective_buffer == BUF_SIM && !r.accepted) cx.st->add("probe.read_high_water_checked");
-        // look-ahead with fall-back to a shorter match happened?
-        for (size_t i = 0; i + 1 < r.tokens.size(); ++i)
-            if (r.tokens[i].off + r.tokens[i].len < r.tokens[i + 1].off + 0 && false) {}
     }
     c09_clauses(p, o, r, vs);
     if (vs.empty()) return vs;
